@@ -28,6 +28,7 @@ PROP = {
         {"name": "memmem", "quick": 800000, "thorough": 8000000, "maxlen": 128},
         {"name": "cmdargs", "quick": 1000000, "thorough": 10000000, "maxlen": 128},
         {"name": "argvc", "quick": 1200000, "thorough": 12000000, "maxlen": 160},
+        {"name": "argvc_bytes", "quick": 600000, "thorough": 6000000, "maxlen": 200},
         {"name": "shell", "quick": 1200000, "thorough": 12000000, "maxlen": 128},
         {"name": "shell_nested", "quick": 300000, "thorough": 3000000, "maxlen": 64},
         {"name": "creader", "quick": 600000, "thorough": 6000000, "maxlen": 160},
@@ -35,7 +36,7 @@ PROP = {
         {"name": "path_long", "quick": 200000, "thorough": 2000000, "maxlen": 96},
         {"name": "text_long", "quick": 600000, "thorough": 6000000, "maxlen": 256},
     ],
-    "uchar": ["split", "trim", "argvc", "cmdargs", "shell", "memmem", "replace"],
+    "uchar": ["split", "trim", "argvc", "argvc_bytes", "cmdargs", "shell", "memmem", "replace"],
     "fuzz": [
         {"name": "cmdargs", "secs": 40, "maxlen": 128},
         {"name": "shell", "secs": 40, "maxlen": 128},
